@@ -6,7 +6,7 @@ from ..engine import Fail, Stratum
 from .. import exact as X, bridge as B, gen, admit as A
 
 ID = "C01"
-USE_WITNESS = True
+WITNESS = ()
 RULE = (
     "all 25 ordered pairs of {Point, Line, HalfLine, Segment, Plane}; first operand a free lattice flat "
     "(|x|<=8, denominators 1,2,4; small integer directions), second operand constructed from it by a "
@@ -20,7 +20,7 @@ RULE = (
 ASSUMPTIONS = [
     "float coordinates (the lattice values are exactly representable)",
     "comparator tolerance 1e-7 absolute on coordinates, 1e-9 on direction sines",
-    "a failing case is reported only if its exact incidence margins exceed 1e-3 (domain of the property) and no tolerance comparison the library made was inside its band (run-time witness)",
+    "a failing case is reported only if its exact incidence margins (directions, point-carrier distances and angles, carrier crossing parameters, carrier-carrier distance) exceed 1e-3 (the property's domain)",
 ]
 
 FLATS = ("P", "L", "H", "S", "PL")
